@@ -7,14 +7,18 @@ PLAN = {
     ],
     "thorough": [
         replays("C03"), replays("C03_sweep"),
-        tape("C03_sweep", 0, mode="ex", name="C03_sweep:ex (all 61 parent forms x 4 variants, ~19 000 operator pairs/triples)"),
+        tape("C03_sweep", 0, mode="ex", name="C03_sweep:ex (all 61 parent forms x 5 variants, ~24 000 operator pairs/triples)"),
         tape("C03", 24000, size=400),
     ],
-    "class_floors": {"type:ode": 0.15, "type:dae": 0.03, "type:nla": 0.03, "type:algebraic": 0.1, "scaled-connection": 0.1, "multi-component": 0.3},
+    "class_floors": {"type:ode": 0.15, "type:dae": 0.03, "type:nla": 0.03, "type:algebraic": 0.1, "scaled-connection": 0.1, "multi-component": 0.3,
+                     # shapes added after the independent exploration (notes/C03.md), fractions of the C03 random stage
+                     "shape:nla-sparse-system": 0.03, "shape:nla-dependent": 0.04, "shape:rate-reader": 0.1, "shape:rate-reader-scaled-voi": 0.03,
+                     "shape:init-by-name-constant": 0.2, "shape:init-by-name-scaled": 0.05, "shape:init-by-name-declared-before": 0.1,
+                     "shape:init-by-name-state": 0.05, "shape:exotic-real-upper-e": 0.2, "op:plus-piecewise-in-piece": 0.05, "op:unary-plus": 0.1},
 }
 CLAIM = {
     "engine": "rapidcheck-tape + exhaustive-tape",
     "technique": "property-based translation validation: generated ground-truth models, generated C compiled and run, generated Python executed, every value compared with an independent reference evaluator; bounded-exhaustive operator-pair sweep",
-    "text": "Every generated program (C and Python, for each generated model) is executed and each array entry - initial states, constants, computed constants, rates and variables at two evaluation points - is compared with a reference evaluator written for the harness; NLA objective functions are evaluated at the constructed solution; C and Python are compared with each other. The thorough tier additionally enumerates every (parent operator, position, child operator) pair, also with a unary minus / not / divide in between, which is the space the generator's parenthesisation rules quantify over. Validates the translation for the programs generated, not for all programs.",
+    "text": "Every generated program (C and Python, for each generated model) is executed and each array entry - initial states, constants, computed constants, rates and variables at two evaluation points - is compared with a reference evaluator written for the harness; NLA objective functions are evaluated at the constructed solution; C and Python are compared with each other. The thorough tier additionally enumerates every (parent operator, position, child operator) pair, also with a unary minus / not / divide / unary plus in between, which is the space the generator's parenthesisation rules quantify over. Validates the translation for the programs generated, not for all programs.",
     "note": "Trusts the harness's reference evaluator (kit/expr.cpp), the system C compiler and Python interpreter; expressions are kept inside the domain where C, Python and the reference must agree (margin 2e-3, tolerance 1e-7); NLA systems are checked at the constructed solution, not solved.",
 }
